@@ -57,7 +57,7 @@ func (e *Env) fn(rule, q string) *ssa.Function {
 			break
 		}
 		q = up
-		f = e.P.Func(q)
+		f = e.P.FuncQuiet(q)
 	}
 	if f == nil {
 		e.R.Undecided(rule, "anchor:"+q, "-", "anchor function "+q+" not found (renamed or removed): update the rule table")
@@ -68,14 +68,14 @@ func (e *Env) fn(rule, q string) *ssa.Function {
 // mergedInto: unexported single-caller helpers that rules anchor on, and the caller their body lands in when they are inlined.
 var mergedInto = map[string]string{
 	// (names are assembled from two pieces so that listing a helper here does not make it an anchor of its own – rules/anchors.go)
-	nm("message/pool.Message.", "decode"):                                              nm("message/pool.Message.", "UnmarshalWithDecoder"),
-	nm("udp/client.Conn.", "getResponseFromCache"):                                     nm("udp/client.Conn.", "checkResponseCache"),
-	nm("udp/client.Conn.", "checkResponseCache"):                                       nm("udp/client.Conn.", "handleReq"),
-	nm("net/client/limitParallelRequests.LimitParallelRequests.", "cancelEndpoint"):    nm("net/client/limitParallelRequests.LimitParallelRequests.", "acquireEndpoint"),
-	nm("net/blockwise.BlockWise.", "getPayloadFromCachedReceivedMessage"):              nm("net/blockwise.BlockWise.", "processReceivedMessage"),
-	nm("net/blockwise.BlockWise.", "getCachedReceivedMessage"):                         nm("net/blockwise.BlockWise.", "processReceivedMessage"),
-	nm("net/blockwise.", "copyToPayloadFromOffset"):                                    nm("net/blockwise.BlockWise.", "processReceivedMessage"),
-	nm("net/blockwise.BlockWise.", "getValidUntil"):                                    nm("net/blockwise.BlockWise.", "processReceivedMessage"),
+	nm("message/pool.Message.", "decode"):                                           nm("message/pool.Message.", "UnmarshalWithDecoder"),
+	nm("udp/client.Conn.", "getResponseFromCache"):                                  nm("udp/client.Conn.", "checkResponseCache"),
+	nm("udp/client.Conn.", "checkResponseCache"):                                    nm("udp/client.Conn.", "handleReq"),
+	nm("net/client/limitParallelRequests.LimitParallelRequests.", "cancelEndpoint"): nm("net/client/limitParallelRequests.LimitParallelRequests.", "acquireEndpoint"),
+	nm("net/blockwise.BlockWise.", "getPayloadFromCachedReceivedMessage"):           nm("net/blockwise.BlockWise.", "processReceivedMessage"),
+	nm("net/blockwise.BlockWise.", "getCachedReceivedMessage"):                      nm("net/blockwise.BlockWise.", "processReceivedMessage"),
+	nm("net/blockwise.", "copyToPayloadFromOffset"):                                 nm("net/blockwise.BlockWise.", "processReceivedMessage"),
+	nm("net/blockwise.BlockWise.", "getValidUntil"):                                 nm("net/blockwise.BlockWise.", "processReceivedMessage"),
 }
 
 func nm(a, b string) string { return a + b }
